@@ -274,6 +274,9 @@ DerOf(x)  == "der(" \o x \o ")"
               6: -v = -+t
               7: (t + w1) -+ v = 0 where w1 is the first constant-assignment variable (falls back to
                  spelling 2 without one): alias-shaped only once w1 has been replaced by 0
+              9: t = +-v  (the target first: the other symvar order of the fast path)
+              8: p1*v = +-(p1*t) with the parameter p1 (falls back to spelling 5 without one): three symbols, an
+                 alias only through the "two names besides parameters/constants" test
    targets    "c1" first core unknown  "c2" last core unknown  "prev" previous alias variable
               "x" first state (falls back to c1)  "u" the input  "p" parameter p1 (needs par knob >= 1,
               else c1)  "k" constant k1 (needs par knob 6.., else c1)                      *)
@@ -302,8 +305,14 @@ AliTab == <<
     <<L(-1, 1, "k")>>,
     <<L(1, 1, "x"), L(1, 1, "c2")>>,
     <<L(1, 1, "c1"), L(-1, 7, "c1")>>,
-    <<L(-1, 1, "c1"), L(1, 7, "c1")>> >>
-AliasName == <<"v1", "v2", "v3">>
+    <<L(-1, 1, "c1"), L(1, 7, "c1")>>,
+    <<L(-1, 9, "x"), L(-1, 1, "prev"), L(1, 1, "prev")>>,
+    <<L(-1, 9, "c1"), L(-1, 1, "prev"), L(1, 2, "prev")>>,
+    <<L(-1, 1, "u"), L(1, 9, "prev"), L(-1, 1, "prev")>>,
+    <<L(1, 1, "x"), L(-1, 1, "prev"), L(-1, 9, "prev")>>,
+    <<L(1, 8, "c1")>>,
+    <<L(-1, 8, "c2"), L(1, 1, "prev")>> >>
+AliasName == <<"v1", "v2", "v3", "v4">>
 
 (* constant assignments: sequence of [f: spelling, c: value]
    spellings 1: w = c   2: c = w   3: w + (-c) = 0   4: -w = -c   5: 2*w = 2c  (4, 5 are not matched
@@ -345,9 +354,11 @@ ParTab == <<
     <<PV("p1", "P", Lit(0), "add")>> >>
 
 (* eliminable variables (names with prefix e_): sequence of [n, f: spelling, r: what it is defined from]
-   spellings 1: e = R   2: R = e   3: e + (-R) = 0  (OP_ADD path)   4: (e - R1) = R2 (not matched)
+   spellings 1: e = R   2: R = e   3: e + R = 0, i.e. e = -R  (the OP_ADD path of extract_assignment)
+             4: (e - 1) = (R - 1) (not matched)
              5: e = R, e is a STATE with unknown der(e); R = s*y + c defines the fresh algebraic y
    right-hand sides  "t+1": c1 + 1   "2t-x": 2*c1 - first state/input   "prev+1": previous e + 1
+                     "0": the literal 0 (the equation is the bare symbol)
                      "t*u": c1 * input (not affine in the unknowns+inputs)  "w": first constant-assignment
                      variable or c2   "p*t": p1 * c1 (needs a parameter, else 2*c1) *)
 EV(n, f, r) == [n |-> n, f |-> f, r |-> r]
@@ -365,7 +376,9 @@ ElimTab == <<
     <<EV("e_1", 1, "p*t")>>,
     <<EV("e_s", 5, "y+1")>>,
     <<EV("e_s", 5, "-y")>>,
-    <<EV("e_s", 5, "y+x")>> >>
+    <<EV("e_s", 5, "y+x")>>,
+    <<EV("e_1", 1, "0")>>,
+    <<EV("e_1", 2, "t+1"), EV("e_2", 1, "0")>> >>
 
 (* initial equations: 0 none; 1 every state = literal; 2 also last alias / eliminable / constant
    variable = literal; 3 first state = parameter/constant + literal (when there is one) *)
@@ -376,7 +389,7 @@ RowDom == 1..3
 UseTab == <<1, -1, 2, 3>>
 
 BPSpace == [core : 1..Len(CoreTab), ali : 1..Len(AliTab), cst : 1..Len(CstTab), par : 1..Len(ParTab),
-            elim : 1..Len(ElimTab), ini : IniDom, row : RowDom, use : 1..Len(UseTab), rev : 0..1, meta : 0..1000000]
+            elim : 1..Len(ElimTab), ini : IniDom, row : RowDom, use : 1..Len(UseTab), rev : 0..1, dne : 0..2, perm : 0..5, meta : 0..1000000]
 
 (* values of the free quantities, in order of appearance *)
 SolTab == <<2, -3, 5, 7, -1, 4, -2, 3, 6, -5, 8, -7>>
@@ -440,6 +453,8 @@ AliasEq(v, t, s, f) ==      \* the equation spelling; all mean v = s*t
       [] f = 4 -> Eq(Lit(0), IF s = 1 THEN MkSub(V, T) ELSE MkAdd(V, T))
       [] f = 5 -> Eq(MkMul(Lit(3), V), IF s = 1 THEN MkMul(Lit(3), T) ELSE MkNeg(MkMul(Lit(3), T)))
       [] f = 6 -> Eq(MkNeg(V), IF s = 1 THEN MkNeg(T) ELSE T)
+      [] f = 9 -> Eq(T, IF s = 1 THEN V ELSE MkNeg(V))
+      [] f = 8 -> Eq(MkMul(Sym("p1"), V), IF s = 1 THEN MkMul(Sym("p1"), T) ELSE MkNeg(MkMul(Sym("p1"), T)))
       [] f = 7 -> Eq(IF s = 1 THEN MkSub(MkAdd(T, Sym("w1")), V) ELSE MkAdd(MkAdd(T, Sym("w1")), V), Lit(0))
 W1Zero(b) ==        \* the first constant-assignment variable exists and is 0 in the solution
     /\ CstTab[b.cst] # <<>>
@@ -451,9 +466,19 @@ AddAli(acc, b, ls, i, prev) ==
     IF i > Len(ls) THEN acc
     ELSE LET v == AliasName[i]
              t == AliTarget(b, ls[i].t, prev)
-             f == IF ls[i].f = 7 /\ ~W1Zero(b) THEN 2 ELSE ls[i].f
+             f == IF ls[i].f = 7 /\ ~W1Zero(b) THEN 2
+                  ELSE IF ls[i].f = 8 /\ ~HasPar(b, "p1") THEN 5 ELSE ls[i].f
              e == AliasEq(v, t, ls[i].s, f)
          IN  AddAli(AddEq(Given(acc, v, "A", ls[i].s * acc.sol[t]), e.l, e.r), b, ls, i + 1, v)
+
+(* the order of the alias equations (knob perm): the order decides which side of alias_relation.add an existing
+   group is on *)
+Perms3 == << <<1, 2, 3>>, <<1, 3, 2>>, <<2, 1, 3>>, <<2, 3, 1>>, <<3, 1, 2>>, <<3, 2, 1>> >>
+PermOf(n, k) == IF n = 3 THEN Perms3[k + 1]
+                ELSE IF n = 2 THEN (IF k % 2 = 0 THEN <<1, 2>> ELSE <<2, 1>>)
+                ELSE [i \in 1..n |-> i]
+PermuteTail(es, n, pm) ==       \* the last n equations of es in the order pm
+    LET m == Len(es) - n IN [i \in 1..Len(es) |-> IF i <= m THEN es[i] ELSE es[m + pm[i - m]]]
 
 (* step 4: constant assignments *)
 CstEq(w, f, c) ==
@@ -479,6 +504,7 @@ ElimRhs(b, r, prev) ==
     CASE r = "t+1"    -> MkAdd(T, Lit(1))
       [] r = "2t-x"   -> MkSub(MkMul(Lit(2), T), Sym(X1(b)))
       [] r = "prev+1" -> MkAdd(Sym(prev), Lit(1))
+      [] r = "0"      -> Lit(0)
       [] r = "t*u"    -> MkMul(T, Sym("u1"))
       [] r = "w"      -> IF CstTab[b.cst] # <<>> THEN Sym("w1") ELSE Sym(C2(b))
       [] r = "p*t"    -> IF HasPar(b, "p1") THEN MkMul(Sym("p1"), T) ELSE MkMul(Lit(2), T)
@@ -489,7 +515,7 @@ ElimEq(e, f, R) ==
     LET E == Sym(e) IN
     CASE f \in {1, 5} -> Eq(E, R)
       [] f = 2 -> Eq(R, E)
-      [] f = 3 -> Eq(MkAdd(E, MkNeg(R)), Lit(0))
+      [] f = 3 -> Eq(MkAdd(E, R), Lit(0))
       [] f = 4 -> Eq(MkSub(E, Lit(1)), MkSub(R, Lit(1)))
 RECURSIVE AddElim(_, _, _, _, _)
 AddElim(acc, b, es, i, prev) ==
@@ -503,7 +529,8 @@ AddElim(acc, b, es, i, prev) ==
                   LET a1 == Free(Free(Free(acc, e.n, "S"), DerOf(e.n), "D"), "y", "A")
                       c  == a1.sol[e.n] - Eval(R, a1.sol)      \* e = R + c
                   IN  AddElim(AddEq(a1, q.l, MkAdd(q.r, Lit(c))), b, es, i + 1, e.n)
-             ELSE AddElim(AddEq(Given(acc, e.n, "A", Eval(R, acc.sol)), q.l, q.r), b, es, i + 1, e.n)
+             ELSE AddElim(AddEq(Given(acc, e.n, "A", (IF e.f = 3 THEN -1 ELSE 1) * Eval(R, acc.sol)), q.l, q.r),
+                          b, es, i + 1, e.n)
 
 (* step 6: core rows.  Row i: sum_j M[i][j]*U_j + x_i (own state) + uses + literal *)
 LastOr(s, d) == IF s = <<>> THEN d ELSE s[Len(s)]
@@ -545,6 +572,18 @@ AddEsRow(acc, b) ==     \* der(e_s) + e_s = c
     THEN LET e == RowEq(<<Sym(DerOf("e_s")), Sym("e_s")>>, b.row, acc.sol) IN AddEq(acc, e.l, e.r)
     ELSE acc
 
+(* step 6b: two alias classes whose canonical variables may both not be eliminated, joined by an alias equation:
+   d1 = first state (or the input), d2 = der(xd), d1 = +-d2.  The joining equation determines der(xd); _make_alias
+   has to leave it alone ("linking two entries in do_not_eliminate").  knob dne: 0 none, 1 d1 = d2, 2 d1 + d2 = 0 *)
+AddDne(acc, b) ==
+    IF b.dne = 0 THEN acc
+    ELSE LET sg == IF b.dne = 1 THEN 1 ELSE -1
+             t  == X1(b)
+             a1 == Given(Free(acc, "xd", "S"), "der(xd)", "D", sg * acc.sol[t])
+             a2 == AddEq(Given(a1, "d1", "A", acc.sol[t]), Sym("d1"), Sym(t))
+             a3 == AddEq(Given(a2, "d2", "A", sg * acc.sol[t]), Sym("d2"), Sym("der(xd)"))
+         IN  IF sg = 1 THEN AddEq(a3, Sym("d1"), Sym("d2")) ELSE AddEq(a3, MkAdd(Sym("d1"), Sym("d2")), Lit(0))
+
 (* step 7: initial equations *)
 AddIni(acc, b) ==
     LET sts == SelectSeq(acc.order, LAMBDA x : acc.cat[x] = "S")
@@ -568,7 +607,8 @@ AddIni(acc, b) ==
 (* C16 family: one alias class with metadata.  meta = 0 for the C14/C15 families; meta = i > 0 selects entry i
    of IOEnv.META_FILE (drawn by the harness from the seed; the model and every expected value are derived here):
      [tgt: "S" | "A" | "I" | "D"   what the chain hangs on (state x1, algebraic a1, input u1, derivative der(x1)),
-      links: <<[s: sign, f: spelling, t: "t" | "prev"], ...>>   alias variables v1, v2, ...
+      links: <<[s: sign, f: spelling, to: 0 (the target) | k (the earlier alias v_k)], ...>>   alias variables v1, v2, ...
+      perm:  the order in which the alias equations are written (a permutation of 1..Len(links))
       attrs: <<[min, max, nom, fixed, sset, start], ...>>   for the target (not for "D") and v1, v2, ... ]  *)
 MetaFile == JsonDeserialize(IOEnv.META_FILE)
 AttrOf(r) == [min |-> r.min, max |-> r.max, nom |-> r.nom, fixed |-> r.fixed, sset |-> r.sset, start |-> r.start]
@@ -583,10 +623,10 @@ BuildMeta(e) ==
         F[i \in 0..Len(e.links)] ==
             IF i = 0 THEN a2
             ELSE LET v == AliasName[i]
-                     t == IF e.links[i].t = "prev" /\ i > 1 THEN AliasName[i - 1] ELSE tname
+                     t == IF e.links[i].to >= 1 /\ e.links[i].to < i THEN AliasName[e.links[i].to] ELSE tname
                      q == AliasEq(v, t, e.links[i].s, e.links[i].f)
                  IN  AddEq(Given(F[i - 1], v, "A", e.links[i].s * F[i - 1].sol[t]), q.l, q.r)
-        a3 == F[Len(e.links)]
+        a3 == [F[Len(e.links)] EXCEPT !.eqs = PermuteTail(@, Len(e.links), e.perm)]
         lastv == AliasName[Len(e.links)]
         a4 == AddEq(Given(a3, "z", "A", 2 * a3.sol[lastv] + 1), Sym("z"), MkAdd(MkMul(Lit(2), Sym(lastv)), Lit(1)))
         named == IF e.tgt = "D" THEN [i \in 1..Len(e.links) |-> AliasName[i]]
@@ -599,10 +639,12 @@ Build(b) ==
     IF b.meta # 0 THEN BuildMeta(MetaFile[b.meta]) ELSE
     LET a1 == AddCore(Acc0, b, 1)
         a2 == AddPars(a1, Pars(b), 1)
-        a3 == AddAli(a2, b, AliTab[b.ali], 1, "")
+        a3 == LET x == AddAli(a2, b, AliTab[b.ali], 1, "")
+                  n == Len(AliTab[b.ali])
+              IN  [x EXCEPT !.eqs = PermuteTail(@, n, PermOf(n, b.perm))]
         a4 == AddCst(a3, b, CstTab[b.cst], 1)
         a5 == AddElim(a4, b, ElimTab[b.elim], 1, "")
-        a6 == AddEsRow(AddRows(a5, b, 1), b)
+        a6 == AddDne(AddEsRow(AddRows(a5, b, 1), b), b)
         a7 == IF b.rev = 1 THEN [a6 EXCEPT !.eqs = Reverse(@)] ELSE a6
     IN  AddIni(a7, b)
 
@@ -624,12 +666,12 @@ ExtSol(b, acc) ==
          IN  Ext(acc.sol, "der(y)", dy * (acc.sol[DerOf("e_s")] - rest))
     ELSE acc.sol
 
-BaseBP == [core |-> 4, ali |-> 1, cst |-> 1, par |-> 1, elim |-> 1, ini |-> 0, row |-> 1, use |-> 1, rev |-> 0, meta |-> 0]
+BaseBP == [core |-> 4, ali |-> 1, cst |-> 1, par |-> 1, elim |-> 1, ini |-> 0, row |-> 1, use |-> 1, rev |-> 0, dne |-> 0, perm |-> 0, meta |-> 0]
 (* one knob at a time around two centres, plus a block of rich combinations *)
 Centres == {BaseBP,
-            [core |-> 8, ali |-> 12, cst |-> 4, par |-> 10, elim |-> 7, ini |-> 2, row |-> 2, use |-> 2, rev |-> 1, meta |-> 0],
-            [core |-> 5, ali |-> 15, cst |-> 11, par |-> 8, elim |-> 12, ini |-> 3, row |-> 3, use |-> 3, rev |-> 0, meta |-> 0],
-            [core |-> 3, ali |-> 23, cst |-> 10, par |-> 12, elim |-> 1, ini |-> 0, row |-> 1, use |-> 1, rev |-> 0, meta |-> 0]}
+            [core |-> 8, ali |-> 12, cst |-> 4, par |-> 10, elim |-> 7, ini |-> 2, row |-> 2, use |-> 2, rev |-> 1, dne |-> 0, perm |-> 0, meta |-> 0],
+            [core |-> 5, ali |-> 15, cst |-> 11, par |-> 8, elim |-> 12, ini |-> 3, row |-> 3, use |-> 3, rev |-> 0, dne |-> 0, perm |-> 0, meta |-> 0],
+            [core |-> 3, ali |-> 23, cst |-> 10, par |-> 12, elim |-> 1, ini |-> 0, row |-> 1, use |-> 1, rev |-> 0, dne |-> 0, perm |-> 0, meta |-> 0]}
 BaseBPs ==
     UNION {   {[c EXCEPT !.core = i] : i \in 1..Len(CoreTab)}
          \cup {[c EXCEPT !.ali = i] : i \in 1..Len(AliTab)}
@@ -639,12 +681,15 @@ BaseBPs ==
          \cup {[c EXCEPT !.ini = i] : i \in IniDom}
          \cup {[c EXCEPT !.row = i] : i \in RowDom}
          \cup {[c EXCEPT !.use = i] : i \in 1..Len(UseTab)}
-         \cup {[c EXCEPT !.rev = i] : i \in 0..1} : c \in Centres}
+         \cup {[c EXCEPT !.rev = i] : i \in 0..1}
+         \cup {[c EXCEPT !.dne = i] : i \in 0..2}
+         \cup {[c EXCEPT !.perm = i] : i \in 0..5}
+         \cup {[c EXCEPT !.ali = i, !.perm = k] : i \in 25..28, k \in 0..5} : c \in Centres}
 
 (* the shapes at which the as-built switches matter: constants defined by expressions, aliases that only
    become visible in a later iteration *)
 DirectedBPs ==
-    LET c4 == [core |-> 3, ali |-> 23, cst |-> 10, par |-> 12, elim |-> 1, ini |-> 0, row |-> 1, use |-> 1, rev |-> 0, meta |-> 0]
+    LET c4 == [core |-> 3, ali |-> 23, cst |-> 10, par |-> 12, elim |-> 1, ini |-> 0, row |-> 1, use |-> 1, rev |-> 0, dne |-> 0, perm |-> 0, meta |-> 0]
     IN  {[c4 EXCEPT !.ali = i] : i \in {2, 3, 12, 23, 24}}
    \cup {[c4 EXCEPT !.core = i] : i \in 1..Len(CoreTab)}
    \cup {[c4 EXCEPT !.row = i] : i \in RowDom} \cup {[c4 EXCEPT !.rev = 1], [c4 EXCEPT !.ini = 2], [c4 EXCEPT !.elim = 2]}
@@ -1131,6 +1176,7 @@ Tags(b) ==
                   : i \in DOMAIN ps}
                \cup {"par:use-" \o ps[i].use : i \in DOMAIN ps})
     \cup (IF b.ini # 0 THEN {"has:ieqs"} ELSE {})
+    \cup (IF b.dne # 0 THEN {"ali:dne-pair"} ELSE {})
     \cup (IF es = <<>> THEN {"elim:none"}
           ELSE {"elim:len" \o ToString(Len(es))}
                \cup {"elim:f" \o ToString(es[i].f) : i \in DOMAIN es}
